@@ -17,7 +17,9 @@ def main(c):
     c.add_mc("HashStream (the SHA-256 buffering every signature goes through)", vlib.tlc(g.SD, "HashStream", "HashStreamMC.cfg", workers=4, timeout=600))
     c.cov["exhaustive"] = True
     lines = []
-    times = [0, 1, 86399, 86400, 951782399, 951782400, 1582934400, 1709251199, 2147483647, 2147483648, 4102444800, 253402300799]
+    times = [0, 1, 86399, 86400, 951782399, 951782400, 1582934400, 1709251199, 2147483647, 2147483648, 4102444800, 253402300799,
+             # days whose ISO week-based year differs from the calendar year; last seconds of a day
+             1798804800, 1799020799, 1735560000, 1735689599, 1609459200, 946728000, 1262520000, 1798761599, 1577664000, 1956571200]
     rs = lambda alpha, n: "".join(rnd.choice(alpha) for _ in range(n))
     ln = lambda: rnd.choice([0, 1, 2, 3, 4, 9, 20, 40, 60, 61, 64, 124, 128, 200])
     prev = None
